@@ -12,28 +12,28 @@ DEC = "DNSIncoming._decode_labels_at_offset"
 
 LEAVES = [
     # ---- _decode_labels_at_offset: byte classification
-    ("Incoming", "in_packet", F, DEC, ("if", "off < self._data_len", 0),
+    ("Incoming", "in_packet", F, DEC, ("if", "off", "self._data_len", 0),
      [P("off", "off"), P("self._data_len", "data_len")], "bool", N),
-    ("Incoming", "is_end", F, DEC, ("if", "length == 0", 0), [P("length", "length")], "bool", N),
-    ("Incoming", "is_label", F, DEC, ("if", "length < 64", 0), [P("length", "length")], "bool", N),
-    ("Incoming", "is_unknown", F, DEC, ("if", "length < 192", 0), [P("length", "length")], "bool", N),
+    ("Incoming", "is_end", F, DEC, ("if", "length", 0), [P("length", "length")], "bool", N),
+    ("Incoming", "is_label", F, DEC, ("if", "length", 1), [P("length", "length")], "bool", N),
+    ("Incoming", "is_unknown", F, DEC, ("if", "length", 2), [P("length", "length")], "bool", N),
     ("Incoming", "label_idx", F, DEC, ("assign", "label_idx", 0), [P("off", "off")], "num", N),
     ("Incoming", "label_end", F, DEC, ("slice_upper", "self.data", 0),
      [P("label_idx", "label_idx"), P("length", "length")], "num", N),
     ("Incoming", "label_advance", F, DEC, ("aug", "off", 0), [P("length", "length")], "num", N),
     # ---- pointers
     ("Incoming", "link", F, DEC, ("assign", "link", 0), [P("length", "length"), P("link_data", "link_data")], "num", N),
-    ("Incoming", "link_beyond", F, DEC, ("if", "link > self._data_len", 0),
+    ("Incoming", "link_beyond", F, DEC, ("if", "link", "self._data_len", 0),
      [P("link", "link"), P("self._data_len", "data_len")], "bool", N),
-    ("Incoming", "link_self", F, DEC, ("if", "link == off", 0), [P("link", "link"), P("off", "off")], "bool", N),
-    ("Incoming", "too_many_labels", F, DEC, ("if", "len(labels) >", 0), [P("len(labels)", "n")], "bool", N),
+    ("Incoming", "link_self", F, DEC, ("if", "link", "off", 0), [P("link", "link"), P("off", "off")], "bool", N),
+    ("Incoming", "too_many_labels", F, DEC, ("if", "len(labels)", 0), [P("len(labels)", "n")], "bool", N),
     ("Incoming", "hop_limit_reached", F, DEC, ("if", "len(seen_pointers)", 0),
      [P("len(seen_pointers)", "n")], "bool", {"nat": True, "optional": True}),
     ("Incoming", "label_unencodable", F, DEC, ("if", "isascii", 0),
      [P("label.isascii()", "ascii", "bool"), P("len(label.encode('utf-8'))", "enclen")], "bool",
      {"nat": True, "optional": True}),
     # ---- _read_name
-    ("Incoming", "name_too_long", F, "DNSIncoming._read_name", ("if", "len(name) >", 0), [P("len(name)", "n")], "bool", N),
+    ("Incoming", "name_too_long", F, "DNSIncoming._read_name", ("if", "len(name)", 0), [P("len(name)", "n")], "bool", N),
     # ---- header: 6 big-endian shorts at fixed indices (the index is part of the parameter text)
     ("Incoming", "hdr_len", F, "DNSIncoming._read_header", ("aug", "self.offset", 0), [], "num", N),
     ("Incoming", "hdr_id", F, "DNSIncoming._read_header", ("assign", "self.id", 0),
@@ -92,7 +92,7 @@ LEAVES = [
      [P("name_start", "name_start"), P("length", "length")], "num", N),
     ("Incoming", "skip_unknown", F, "DNSIncoming._read_record", ("aug", "self.offset", 1), [P("length", "length")], "num", N),
     # ---- _read_bitmap
-    ("Incoming", "bitmap_more", F, "DNSIncoming._read_bitmap", ("if", "self.offset < end", 0),
+    ("Incoming", "bitmap_more", F, "DNSIncoming._read_bitmap", ("if", "self.offset", "end", 0),
      [P("self.offset", "offset"), P("end", "end_")], "bool", N),
     ("Incoming", "bitmap_end", F, "DNSIncoming._read_bitmap", ("assign", "bitmap_end", 0),
      [P("offset_plus_two", "offset_plus_two"), P("bitmap_length", "bitmap_length")], "num", N),
@@ -108,6 +108,6 @@ LEAVES = [
     ("Incoming", "cstr_end", F, "DNSIncoming._read_character_string", ("slice_upper", "self.data", 0),
      [P("self.offset", "offset"), P("length", "length")], "num", N),
     # ---- _listener.py: the size guard in front of the decoder
-    ("Incoming", "oversize", "_listener.py", "AsyncListener.datagram_received", ("if", "data_len > _MAX_MSG_ABSOLUTE", 0),
+    ("Incoming", "oversize", "_listener.py", "AsyncListener.datagram_received", ("if", "data_len", "_MAX_MSG_ABSOLUTE", 0),
      [P("data_len", "data_len")], "bool", N),
 ]
